@@ -69,10 +69,28 @@ func ringExec(ctx *Ctx, rb container.RingBuffer[int], o ringOp) string {
 			}
 			return "other-error"
 		case "readN":
-			dst := make([]int, o.arg)
+			// the destination is a window of a larger scratch array (len < cap): what lies behind its length is
+			// not the caller's to fill (only for sane sizes; the huge arguments keep the plain slice)
+			var dst []int
+			spare := 0
+			if o.arg >= 0 && o.arg < 1<<16 {
+				spare = 5
+				scratch := make([]int, o.arg+spare)
+				for i := range scratch {
+					scratch[i] = -7777
+				}
+				dst = scratch[:o.arg]
+			} else {
+				dst = make([]int, o.arg)
+			}
 			n := rb.ReadN(dst)
 			if n < 0 || n > len(dst) {
 				return fmt.Sprintf("bad-count %d", n)
+			}
+			for _, x := range dst[:len(dst)+spare][len(dst):] {
+				if x != -7777 {
+					return fmt.Sprintf("wrote-beyond-len %d", n)
+				}
 			}
 			return "vals " + intList(dst[:n])
 		case "skip":
